@@ -56,6 +56,14 @@ step beyond the enumerated / random bounds; coefficients handed over as float / 
 graph attributes nobody asked for.  The truth is the same exact certificate as everywhere else; an exact guard (`scale_profile`)
 keeps the inputs inside the range where double precision with the implementation's fixed thresholds can decide.
 
+Non-integral coefficients (`graph-fractional`): a hand-built graph may carry any number as `stoich` (the code reads it with
+float()), the store and the Lean models hold integers.  The generated coefficients are multiples of 1/k (k = 2, 4, 8: 3/2, 1/2,
+0.25, 2.5 ... written as float / numpy.float64 / float32 / float16, mixed with integral ones written as int / float / NumPy
+scalars); the case description holds the graph k * g, which is inside the models.  build_S is linear in the coefficients:
+the returned S_minus / S_plus / S times k have to equal the model's matrices for k * g (`bip.stoich`) and the described
+network's; rank, kernel dimensions and both verdicts are gated against the certificates of k * g (they coincide), the returned
+kernel vectors / witnesses against the matrix as returned.
+
 The modelled decision logic (`stoich.logic`) is run on the observed oracle outcomes
 (kernel sizes, sign-definite columns, LP status) and its agreement with the implementation is
 recorded in the counters (not gated: `None` versus `False` is not fixed by the property).
@@ -128,7 +136,12 @@ GATES = ("S entries = produced - consumed (rows by returned species label, colum
          "StoichSummary.from_crn(conservativity_check=a, consistency_check=b): counts / rank / dimensions = certified values; is_full_rank <=> "
          "rank = min(n_species, n_reactions); is_underdetermined <=> rank < n_reactions; a requested verdict as the stand-alone call, a verdict "
          "that was not requested is never True without a certificate; has_irreversible_futile_cycles <=> n_reactions - rank > 0; "
-         "CRNHyperGraph.stoichiometric_matrix(sparse=False) = incidence_matrix(sparse=False).")
+         "CRNHyperGraph.stoichiometric_matrix(sparse=False) = incidence_matrix(sparse=False).  "
+         "NON-INTEGRAL COEFFICIENTS (hand-built graphs whose stoich values are multiples of 1/k, k in {2, 4, 8}): k * S_minus, k * S_plus, k * S "
+         "of what build_S_minus_plus / build_S returned are integer matrices and equal, under the gates for hand-built graphs above, the "
+         "matrices of the graph k * g (described network and Lean model bip.stoich of k * g, INCLUDING row / column order); rank, summary "
+         "dimensions, kernel-basis dimensions, is_conservative / compute_conservativity / is_consistent / summary verdicts equal the "
+         "certified values of k * g; every returned kernel vector / witness annihilates (1/k) * (matrix of k * g) within 1e-9.")
 
 
 # =============================================================== exact linear algebra
@@ -1521,10 +1534,12 @@ def g_attrs(nd):
     return a
 
 
-def g_dump(directed, nodes, edges, declared, touched, present, multi=False):
+def g_dump(directed, nodes, edges, declared, touched, present, multi=False, denom=1):
     """The network a graph description stands for, in the shape of a store dump (species = sorted labels; one reaction per
     declared reaction node, id = e<index of the node in the description>, rule = its label).  multi: the graph is a
-    MultiGraph / MultiDiGraph: parallel edges are allowed, the coefficients of parallel edges with the same role add up."""
+    MultiGraph / MultiDiGraph: parallel edges are allowed, the coefficients of parallel edges with the same role add up.
+    denom = k > 1 (stream graph-fractional): the graph g carries the coefficients stoich / k; the dump is the network of the
+    SCALED graph k * g (integer coefficients `stoich`; an absent attribute, i.e. coefficient 1, counts k)."""
     if not declared or not touched <= set(declared):
         raise Infra("graph case: a node mentioned by an edge has no attributes at query time")
     seen = set()
@@ -1548,7 +1563,7 @@ def g_dump(directed, nodes, edges, declared, touched, present, multi=False):
         for j in present:
             e = edges[j]
             if e["r"] == k:
-                c = 1 if e.get("stoich") is None else int(e["stoich"])
+                c = int(denom) if e.get("stoich") is None else int(e["stoich"])
                 if c < 1:
                     raise Infra("graph case: coefficient < 1")
                 side = r if e["role"] == "reactant" else p
@@ -1597,7 +1612,8 @@ def graph_states(case):
                 raise Infra("graph case: rebuild does not list the current nodes / edges")
             declared, present = list(op[1]), list(op[2])
         elif k == "q":
-            out.append((g_dump(g["directed"], nodes, edges, declared, touched, present, bool(g.get("multi"))), op[1] if len(op) > 1 else {}))
+            out.append((g_dump(g["directed"], nodes, edges, declared, touched, present, bool(g.get("multi")), int(g.get("denom") or 1)),
+                        op[1] if len(op) > 1 else {}))
         else:
             raise Infra(f"graph case: unknown operation {k}")
     if not out or case["ops"][-1][0] != "q":
@@ -1635,13 +1651,34 @@ def _bip_int(x):
         return x
     if isinstance(x, float) and x.is_integer():
         return int(x)
+    import numbers
+    if isinstance(x, numbers.Integral):                                  # numpy.int64 / int32: the same integer
+        return int(x)
+    if isinstance(x, numbers.Real) and float(x).is_integer():            # numpy.float32 / float16
+        return int(float(x))
     raise ValueError(f"not an integer: {x!r}")
 
 
-def bip_request(G, arcs=None):
+def _bip_scaled(x, k):
+    """Coefficient x (int / float / Fraction / NumPy scalar, a multiple of 1/k) -> the integer k * x; ValueError otherwise."""
+    if isinstance(x, bool):
+        v = Fr(int(x))
+    elif isinstance(x, (int, Fr)):
+        v = Fr(x)
+    else:
+        v = Fr(float(x))            # float and NumPy floating / integer scalars (exact: binary fractions)
+    v *= k
+    if v.denominator != 1:
+        raise ValueError(f"not a multiple of 1/{k}: {x!r}")
+    return int(v)
+
+
+def bip_request(G, arcs=None, scale=1):
     """The NetworkX object G serialised node by node (G.nodes order) and edge by edge for the driver command bip.stoich
     (SynKitModel/BipGraph.lean).  arcs: the add_edge calls [(u, v, attrs)] that built G (then the model also has to
-    reproduce what NetworkX stores); default: the stored edges G.edges(data=True).  -> request, or {"skip": reason}."""
+    reproduce what NetworkX stores); default: the stored edges G.edges(data=True).  -> request, or {"skip": reason}.
+    scale = k > 1: what is serialised is the graph k * G (every `stoich` multiplied by k, which has to give an integer; an
+    absent `stoich` -- coefficient 1 -- is written as the explicit coefficient k): the model holds integers only."""
     ids = [str(n) for n in G.nodes]
     plain = len(set(ids)) == len(ids)
     tok = (lambda n: str(n)) if plain else (lambda n: repr(n))      # 1 and "1" in one graph: ids by repr, labels explicit
@@ -1659,7 +1696,11 @@ def bip_request(G, arcs=None):
             role = d.get("role")
             if role is not None and not isinstance(role, str):
                 return {"skip": "role is not a string"}
-            out.append({"src": tok(u), "dst": tok(v), "role": role, "stoich": _bip_int(d["stoich"]) if "stoich" in d else None})
+            if scale != 1:
+                st_ = _bip_scaled(d["stoich"], scale) if "stoich" in d else int(scale)
+            else:
+                st_ = _bip_int(d["stoich"]) if "stoich" in d else None
+            out.append({"src": tok(u), "dst": tok(v), "role": role, "stoich": st_})
     except ValueError as e:
         return {"skip": str(e)}
     return {"cmd": "bip.stoich", "directed": bool(G.is_directed()), "multi": bool(G.is_multigraph()), "nodes": nodes, "arcs": out,
@@ -1714,14 +1755,20 @@ def bip_net_matches_dump(obs):
     return sorted(net["species"]) == sorted(dump["species"]) and sorted(map(key, net["edges"])) == sorted(map(key, dump["edges"]))
 
 
-def observe_G(G, dump, plan):
+def observe_G(G, dump, plan, denom=1):
     """Run every anchored entry point on one NetworkX graph object.  `dump`: the network the description stands for
-    (used for the label-indexed matrix the returned vectors have to annihilate and for the equivalent CRNHyperGraph)."""
+    (used for the label-indexed matrix the returned vectors have to annihilate and for the equivalent CRNHyperGraph).
+    denom = k > 1: the coefficients of G are multiples of 1/k and `dump` is the network of k * G: the returned S, S_minus, S_plus
+    are multiplied by k (exact in binary floating point, k a power of two) before they are compared as integer matrices; the
+    returned kernel vectors / witnesses are tested against the matrix AS RETURNED (integer matrix / k)."""
     import numpy as np
     from synkit.CRN.Props import stoich
     from synkit.CRN.Petri import semiflows
 
-    out = {"dump": dump, "bip": bip_request(G)}
+    denom = int(denom or 1)
+    out = {"dump": dump, "bip": bip_request(G, scale=denom)}
+    if denom != 1:
+        out["denom"] = denom
     real = stoich.linprog
     rec = _LinprogRecorder(real)
     raw = {}
@@ -1797,16 +1844,22 @@ def observe_G(G, dump, plan):
 
     sp, rules, S = raw["S"]
     sp2, rules2, Sm, Sp = raw["Smp"]
-    Si, exact = as_int_matrix(S)
-    Smi, e1 = as_int_matrix(Sm)
-    Spi, e2 = as_int_matrix(Sp)
+    if denom != 1:
+        out["returned"] = {"S": np.asarray(S, dtype=float).tolist(), "S_minus": np.asarray(Sm, dtype=float).tolist(),
+                           "S_plus": np.asarray(Sp, dtype=float).tolist()}
+    scaled = (lambda M: np.asarray(M, dtype=float) * denom) if denom != 1 else (lambda M: M)
+    Si, exact = as_int_matrix(scaled(S))
+    Smi, e1 = as_int_matrix(scaled(Sm))
+    Spi, e2 = as_int_matrix(scaled(Sp))
     out.update(species=[str(s) for s in sp], rules=[str(r) for r in rules], S=Si, S_minus=Smi, S_plus=Spi,
                integral=exact and e1 and e2, same_orders=(list(sp) == list(sp2) and list(rules) == list(rules2)),
                shape=list(np.asarray(S).shape))
-    Sf = np.array(Si, dtype=float).reshape(len(sp), len(rules))
+    Sf = np.array(Si, dtype=float).reshape(len(sp), len(rules)) / denom
     St = label_matrix(dump, out["species"], out["rules"], Si) if np.asarray(S).shape == (len(sp), len(rules)) else None
     if St is not None and St.shape != Sf.shape:
         St = None
+    if St is not None:
+        St = St / denom
     hs, hr, hS = raw["hyper"]
     hSi, hex_ = as_int_matrix(hS)
     so, eo, inc = raw["hyper_inc"]
@@ -1901,6 +1954,23 @@ def observe_G(G, dump, plan):
     return out
 
 
+FRAC_REPS = ["float", "float", "float", "npfloat", "npfloat", "npfloat32", "npfloat16"]      # a non-integral multiple of 1/k
+FRAC_REPS_INTEGRAL = ["int", "int", "float", "npint", "npfloat", "npint32"]                      # an integral one (same graph: mixed)
+
+
+def frac_value(num, den, rep):
+    """The coefficient num / den (den a power of two, num small: every representation below holds it exactly) as the Python /
+    NumPy number of the requested representation; an integer type that cannot hold it falls back to float."""
+    import numpy as np
+
+    x = Fr(int(num), int(den))
+    if x.denominator == 1 and rep in ("int", "npint", "npint32"):
+        return {"int": int, "npint": np.int64, "npint32": np.int32}[rep](int(x))
+    if rep in ("npfloat", "npfloat32", "npfloat16"):
+        return {"npfloat": np.float64, "npfloat32": np.float32, "npfloat16": np.float16}[rep](float(x))
+    return float(x)                 # "float": what 3 / 2, 0.25, float(Fraction(5, 2)) evaluate to
+
+
 def graph_class(g):
     import networkx as nx
 
@@ -1921,6 +1991,7 @@ def work_graph(case):
     nodes, edges = g["nodes"], g["edges"]
     fnodes, fedges = g.get("fnodes") or [], g.get("fedges") or []
     multi = bool(g.get("multi"))
+    denom = int(g.get("denom") or 1)
     cls, name = graph_class(g)
     G = cls()
     keep, states, calls = [], [], []
@@ -1961,7 +2032,9 @@ def work_graph(case):
             e = edges[op[1]]
             u, v = ends(op[1])
             a = {"role": e["role"]}
-            if e.get("stoich") is not None:
+            if e.get("stoich") is not None and denom != 1:
+                a["stoich"] = frac_value(e["stoich"], denom, e.get("rep") or "float")      # the coefficient stoich / denom
+            elif e.get("stoich") is not None:
                 a["stoich"] = float(e["stoich"]) if e.get("float") else int(e["stoich"])
                 if e.get("num"):            # the same integer as a NumPy scalar (equal under ==, other type / print)
                     import numpy as np
@@ -1983,8 +2056,9 @@ def work_graph(case):
             fe_in.append(op[1])
         elif k == "c":
             u, v = ends(op[1])
-            edata(G, op[1])["stoich"] = op[2]
-            log.append(f"G.edges[{u!r}, {v!r}{', ' + repr(ekey[op[1]]) if multi else ''}]['stoich'] = {op[2]!r}")
+            val = op[2] if denom == 1 else frac_value(op[2], denom, op[3] if len(op) > 3 else "float")
+            edata(G, op[1])["stoich"] = val
+            log.append(f"G.edges[{u!r}, {v!r}{', ' + repr(ekey[op[1]]) if multi else ''}]['stoich'] = {val!r}")
         elif k == "l":
             G.nodes[nid(op[1])]["label"] = op[2]
             log.append(f"G.nodes[{nid(op[1])!r}]['label'] = {op[2]!r}")
@@ -2018,7 +2092,7 @@ def work_graph(case):
             dump, plan = spec[qi]
             qi += 1
             try:
-                obs = observe_G(G, dump, plan)
+                obs = observe_G(G, dump, plan, denom)
             except Exception as e:
                 if isinstance(e, Infra):
                     raise
@@ -2036,7 +2110,15 @@ def judge_G(obs, cert, lean):
     if "crash" not in obs and not bip_net_matches_dump(obs):
         raise Infra("netOfGraph (Lean model of the graph reading) differs from the network the case description stands for: "
                     + json.dumps({"net": obs["bip_lean"]["net"], "dump": obs["dump"]})[:900])
-    return judge_G_described(obs, cert, lean) + judge_bip(obs)
+    found = judge_G_described(obs, cert, lean) + judge_bip(obs)
+    k = obs.get("denom")
+    if k and found:
+        note = {"non_integral_coefficients": f"the coefficients of this graph are multiples of 1/{k}; every integer matrix shown here (impl / spec / "
+                                             f"model / described network) is {k} times the matrix of the graph (build_S is linear in the coefficients: "
+                                             f"S(g) = S({k} g) / {k}); as_returned = what the implementation returned for the graph itself",
+                "as_returned": obs.get("returned")}
+        found = [(t[0], {**t[1], **note}) + tuple(t[2:]) for t in found]
+    return found
 
 
 def judge_G_described(obs, cert, lean):
@@ -2140,6 +2222,16 @@ def record_G(ctx, case, k, obs, cert, tag, canon):
     count_x(ctx, obs)
     if obs["witness"] is not None:
         ctx.count("witness_returned")
+    if obs.get("denom"):
+        kd = obs["denom"]
+        frac = [c for e in dump["edges"] for _, c in e["r"] + e["p"] if c % kd]
+        ctx.count(f"fractional:denominator:{kd}")
+        ctx.count("fractional:family:" + str(g.get("family")))
+        ctx.count("fractional:non_integral_coefficients_in_queried_graph:" + (str(len(frac)) if len(frac) < 3 else "3+"))
+        if any(c < kd for c in frac):
+            ctx.count("fractional:some_coefficient_below_1")
+        ctx.count("fractional:split:" + ("cons" if cert["cons"] == "pos" else "noncons") + "+" + ("consi" if cert["consi"] == "pos" else "nonconsi"))
+        ctx.count(f"fractional:rank:{min(r, 3)}{'+' if r >= 3 else ''}")
     nontrivial = n >= 1 and r >= 1
     ctx.case(canon, nontrivial, sample={"stream": tag, "graph": g, "ops": case["ops"], "rank": r} if len(g["nodes"]) <= 5 else None)
 
@@ -3170,6 +3262,135 @@ def scale_graph_case(rnd):
     return {"graph": g, "ops": ops}
 
 
+# ---------------------------------------------------------------- non-integral coefficients (hand-built graphs only)
+# A CRNHyperGraph holds integer counts, and so do the Lean models; a hand-built NetworkX graph may carry any number as `stoich`
+# (build_S_minus_plus reads it with float()).  The coefficients generated here are multiples of 1/k, k in {2, 4, 8}: the case
+# description holds the integer numerators, i.e. the graph k * g, which is inside the models; build_S is linear in the
+# coefficients, so S(g) = S(k g) / k, rank / kernels / verdicts of g and k g coincide.
+FRACTIONAL_TEXTBOOK = [
+    [({"A": "1"}, {"B": "3/2"}), ({"B": "3"}, {"A": "2"})],                                             # conservative (3, 2), consistent (2, 1)
+    [({"H2": "1", "O2": "1/2"}, {"H2O": "1"})],
+    [({"H2": "1", "O2": "1/2"}, {"H2O": "1"}), ({"H2O": "1"}, {"H2": "1", "O2": "1/2"})],
+    [({"N2": "1/2", "H2": "3/2"}, {"NH3": "1"}), ({"NH3": "2"}, {"N2": "1", "H2": "3"})],
+    [({"CO": "1", "O2": "1/2"}, {"CO2": "1"}), ({"CO2": "1"}, {"CO": "1", "O2": "1/2"}), ({}, {"CO": "1"}), ({"CO2": "1"}, {})],
+    [({"A": "1"}, {"B": "1/2"}), ({"B": "1"}, {"A": "2"})],
+    [({"A": "1"}, {"B": "1/4"}), ({"B": "1"}, {"A": "4"})],
+    [({"A": "5/2"}, {"B": "1"}), ({"B": "1"}, {"C": "5/4"}), ({"C": "1"}, {"A": "2"})],                # balanced cycle
+    [({"A": "5/2"}, {"B": "1"}), ({"B": "1"}, {"C": "5/4"}), ({"C": "1"}, {"A": "3"})],                # unbalanced cycle
+    [({"A": "3/2", "B": "1/2"}, {"C": "1"}), ({"C": "1"}, {"A": "3/2", "B": "1/2"})],
+    [({}, {"A": "1/2"}), ({"A": "1"}, {"B": "3/2"}), ({"B": "3/4"}, {})],                               # open: consistent, not conservative
+    [({"A": "1"}, {"B": "3/2"}), ({"B": "3"}, {"A": "5/2"})],                                           # no law, no flux
+    [({"E": "1", "S": "1/2"}, {"ES": "1"}), ({"ES": "1"}, {"E": "1", "S": "1/2"}), ({"ES": "1"}, {"E": "1", "P": "1/2"})],
+    [({"X": "1"}, {"X": "3/2"}), ({"X": "1", "Y": "1/2"}, {"Y": "1"}), ({"Y": "1"}, {})],
+    [({"A": "1/2"}, {"B": "1/2"}), ({"B": "1/4"}, {"C": "1/4"}), ({"C": "3/4"}, {"A": "3/4"})],        # every coefficient below 1
+]
+
+
+def _lcm(a, b):
+    return a * b // math.gcd(a, b)
+
+
+def fractional_net(rnd):
+    """-> (network of integer numerators = the scaled network k * g, k, family).  Families: `planted` (textbook reactions written
+    with half / quarter coefficients, relabelled), `columns` (a tiny / random / textbook / one-step-beyond integer network with
+    whole reactions divided by 2, 4 or 8: same kernels and verdicts as the integer population, e.g. 2 A + B >> C becomes
+    A + 1/2 B >> 1/2 C), `entries` (a small network whose individual coefficients are arbitrary multiples of 1/k, some below 1),
+    `cascade` (a mass-conserving cascade with reactions divided by 2 / 4).  At least one coefficient of k * g is not a multiple of k."""
+    while True:
+        fam = rnd.choice(["planted", "columns", "columns", "columns", "entries", "entries", "cascade"])
+        if fam == "planted":
+            rows = [({s_: Fr(c) for s_, c in l.items()}, {s_: Fr(c) for s_, c in r.items()}) for l, r in rnd.choice(FRACTIONAL_TEXTBOOK)]
+            k = 1
+            for l, r in rows:
+                for c in list(l.values()) + list(r.values()):
+                    k = _lcm(k, c.denominator)
+            k = min(8, k * rnd.choice([1, 1, 2]))
+            names = sorted({s_ for l, r in rows for s_ in list(l) + list(r)})
+            ren = dict(zip(names, label_pool(rnd, len(names)))) if rnd.random() < 0.4 else {s_: s_ for s_ in names}
+            rxns = [rx([(ren[s_], int(c * k)) for s_, c in l.items()], [(ren[s_], int(c * k)) for s_, c in r.items()]) for l, r in rows]
+            if rnd.random() < 0.3:
+                rnd.shuffle(rxns)
+            net = {"rxns": rxns}
+        elif fam in ("columns", "cascade"):
+            k = rnd.choice([2, 2, 2, 4, 4, 8])
+            if fam == "cascade":
+                base = scale_cascade(rnd, cap=200, nmax=9)
+            else:
+                c = rnd.random()
+                base = tiny_net(rnd) if c < 0.3 else random_net(rnd) if c < 0.75 else rnd.choice(textbook(rnd)) if c < 0.9 else beyond_net(rnd)
+            rxns = []
+            for r0 in base["rxns"]:
+                d = rnd.choice([x for x in (1, 2, 2, 4, 8) if x <= k])
+                rxns.append({**r0, "r": [[s_, c * (k // d)] for s_, c in r0["r"]], "p": [[s_, c * (k // d)] for s_, c in r0["p"]]})
+            net = {"rxns": rxns, "isolated": list(base.get("isolated", []))}
+        else:
+            k = rnd.choice([2, 2, 4, 4, 8])
+            ns = rnd.randint(1, 5)
+            sp = rnd.sample(rnd.choice(SPECIES_POOLS), ns)
+            cf = lambda: k * rnd.choice([1, 1, 2, 3]) if rnd.random() < 0.45 else rnd.randint(1, 3 * k + k // 2)
+            side = lambda kmax: [(s_, cf()) for s_ in rnd.sample(sp, rnd.randint(0, min(kmax, ns)))]
+            rxns = []
+            while len(rxns) < rnd.randint(1, 4):
+                c = rnd.random()
+                if rxns and c < 0.3:
+                    b0 = rnd.choice(rxns)
+                    r0 = rx([tuple(x) for x in b0["p"]], [tuple(x) for x in b0["r"]])
+                elif c < 0.4:
+                    r0 = rx([], side(2)) if rnd.random() < 0.5 else rx(side(2), [])
+                else:
+                    r0 = rx(side(2), side(2))
+                if r0["r"] or r0["p"]:
+                    rxns.append(r0)
+            net = {"rxns": rxns}
+        if not net["rxns"] or not any(c % k for r0 in net["rxns"] for _, c in r0["r"] + r0["p"]):
+            continue
+        prof = scale_profile(net)               # exact guard, on the integer network k * g (same kernels as g)
+        if prof["big"] <= 10 ** 4 and prof["term"] <= 10 ** 5:
+            return net, k, fam
+
+
+def fractional_graph_case(rnd):
+    """A network with non-integral coefficients as a hand-built NetworkX graph (all four classes): the numbers written as
+    float / numpy.float64 / float32 / float16, the integral ones of the same graph as int / float / NumPy scalars, an absent
+    attribute where the coefficient is 1; queried, for a third of the cases copied and / or edited in place (one coefficient set
+    to another multiple of 1/k) and queried again; partly in the simulated environment without SciPy."""
+    net, k, fam = fractional_net(rnd)
+    directed = rnd.random() < 0.55
+    multi = rnd.random() < 0.3
+    g, n_sp = graph_description(rnd, {"rxns": net["rxns"], "isolated": net.get("isolated", [])}, directed, multi=multi)
+    g["denom"], g["family"] = k, fam
+    nodes, edges = g["nodes"], g["edges"]
+    for e in edges:
+        if e["stoich"] is None:
+            e["stoich"] = 1                     # graph_description leaves the attribute out for a 1: here that is the numerator of 1/k
+        e.pop("float", None)
+        if e["stoich"] == k and rnd.random() < 0.3:
+            e["stoich"] = None                  # attribute absent: coefficient 1 = k / k
+        else:
+            e["rep"] = rnd.choice(FRAC_REPS if e["stoich"] % k else FRAC_REPS_INTEGRAL)
+        if rnd.random() < 0.12:
+            e["extra"] = dict(rnd.choice(EXTRA_EDGE_ATTRS))
+    if fam != "cascade" and rnd.random() < 0.15:
+        add_foreign(rnd, g)
+    ops = insertion_ops(rnd, g, list(range(len(nodes))), list(range(len(edges))), rnd.choice(INSERTION_MODES))
+    for i in range(len(g.get("fnodes") or [])):
+        ops.insert(rnd.randint(0, len(ops)), ["fn", i])
+    for j in range(len(g.get("fedges") or [])):
+        ops.insert(rnd.randint(0, len(ops)), ["fe", j])
+    if rnd.random() < 0.35:
+        ops.append(["q", graph_query_plan(rnd, rich=False)])
+        if rnd.random() < 0.4:
+            ops.append(["copy"])
+        if fam != "cascade" and edges and rnd.random() < 0.7:
+            num = rnd.randint(1, 3 * k + 1)
+            ops.append(["c", rnd.randrange(len(edges)), num, rnd.choice(FRAC_REPS if num % k else FRAC_REPS_INTEGRAL)])
+    plan = graph_query_plan(rnd, rich=(fam != "cascade" and rnd.random() < 0.3))
+    if rnd.random() < 0.4:
+        plan["x"] = x_plan(rnd, 0.5)
+    ops.append(["q", plan])
+    return {"graph": g, "ops": ops}
+
+
 # ---------------------------------------------------------------- hand-built graph populations
 def graph_query_plan(rnd, rich=True):
     st = {}
@@ -3611,6 +3832,16 @@ def setup(ctx):
         "22501 X7 >> X1 closing a cascade of product 22500; HiGHS 'infeasible' for coefficients ~1e4 with fluxes ~1e6) -- not gated",
         "representation variants of one network (coefficients as int / float / NumPy scalars, one-shot iterables, extra attributes) all stand "
         "for the same integer coefficients: the specification side reads the store dump (stores) / the description (graphs) only",
+        "non-integral coefficients (stream graph-fractional): the property speaks of 'every reaction network' and build_S_minus_plus reads "
+        "`stoich` as a real number (float(...), documented default 1.0), so a hand-built graph with coefficients 3/2, 1/2, 0.25 is an input; the "
+        "Lean models (Stoich.lean, BipGraph.lean) and CRNHyperGraph hold INTEGER coefficients only.  The gate rests on the LINEARITY of the "
+        "stoichiometric matrix in the coefficients (S_minus, S_plus, S are sums of the edge coefficients: theorem buildS_entry / the model of "
+        "the graph reading): for a graph g whose coefficients are multiples of 1/k, S(g) = S(k g) / k where k g has integer coefficients; rank, "
+        "kernel dimensions, both kernels and hence both verdicts of g and k g coincide, a witness for one is a witness for the other.  This "
+        "scaling step is done in the harness (Python, exact: k is a power of two and the numerators are < 2^11, so k * x is exact in binary "
+        "floating point for float64 / float32 / float16), it is NOT a Lean theorem; an absent `stoich` (coefficient 1, theorem "
+        "graphS_missing_stoich) is serialised for the model as the explicit coefficient k; the exact guard of the scale streams is applied to "
+        "k g (primitive kernel vectors <= 1e4, coefficient * flux <= 1e5)",
     ]
     ctx.gen_rule = ("regression corpus; ALL single reactions over species A,B,C with coefficients in {0,1,2} (728); unordered pairs of such "
                     "reactions (all 265356 in thorough, a seeded sample of 4000 ordered pairs in quick); textbook families "
@@ -3673,6 +3904,20 @@ def setup(ctx):
                     "with stoich given as int / float / numpy.int64 / numpy.float64 / numpy.int32 mixed within one graph, 30 % of the edges and 20 % "
                     "of the nodes carrying attributes the conventions do not mention (weight, capacity, label, id, name, coeff, stoichiometry, "
                     "order, count, index, species) with values unlike the coefficient. "
+                    "GRAPH-FRACTIONAL (400 quick / 4000 thorough hand-built graphs, ~1.35 queries each; DiGraph / Graph / MultiDiGraph / MultiGraph): "
+                    "networks with NON-INTEGRAL coefficients, all multiples of 1/k with k in {2, 4, 8} and at least one of them non-integral.  "
+                    "Families: planted (14 %: A >> 3/2 B, 3 B >> 2 A; H2 + 1/2 O2 >> H2O alone / reversible; 1/2 N2 + 3/2 H2 >> NH3 with its "
+                    "integer reverse; open CO oxidation; A >> 1/4 B, B >> 4 A; balanced and unbalanced cycles with 5/2 and 5/4; open chain; "
+                    "Michaelis-Menten and Lotka-Volterra with a half coefficient; a cycle whose coefficients are all below 1; 40 % relabelled); "
+                    "columns (43 %: a tiny / random / textbook / one-step-beyond INTEGER network with whole reactions divided by 2, 4 or 8, so that "
+                    "the kernels and verdicts are distributed as in the integer populations); entries (29 %: <= 5 species, <= 4 reactions, every "
+                    "coefficient an arbitrary multiple of 1/k up to 3.5, some below 1, reversed copies, sources / sinks); cascade (14 %: a "
+                    "mass-conserving cascade of dynamic range <= 200 with reactions divided by 2 / 4 / 8).  Non-integral values written as float / "
+                    "numpy.float64 / numpy.float32 / numpy.float16, integral ones of the same graph as int / float / numpy.int64 / numpy.float64 / "
+                    "numpy.int32, 30 % of the coefficients equal to 1 left out (documented default), 12 % of the edges with unrelated attributes, "
+                    "15 % of the graphs with foreign nodes / edges; node ids / labels / flags / insertion orders as in GRAPH; 35 % queried, then "
+                    "copied and / or edited in place (one coefficient set to another multiple of 1/k) and queried again; 40 % with the from_crn "
+                    "switches, half of those in the simulated environment without SciPy; non-default tolerances for 30 % of the non-cascade cases. "
                     "GRAPH-WRITTEN (600 quick / 6000 thorough): graphs given by their construction only, no described network: one of "
                     "DiGraph / MultiDiGraph / Graph / MultiGraph, 1-3 species nodes, 1-2 reaction nodes, 0-1 other node, typed by kind / "
                     "bipartite / both / contradicting flag, labels present / absent / (8 %) tied, 8 % of the nodes never declared (they exist "
@@ -3737,6 +3982,9 @@ def run(ctx):
         run_nets(ctx, [scale_net(ctx.rnd) for _ in range(520 if ctx.quick else 5200)], "scale")
         run_sessions(ctx, [scale_session(ctx.rnd) for _ in range(60 if ctx.quick else 600)], "scale-session")
         run_graphs(ctx, [scale_graph_case(ctx.rnd) for _ in range(140 if ctx.quick else 1400)], "scale-graph")
+        # -- non-integral coefficients (multiples of 1/2, 1/4, 1/8) on hand-built graphs: expected matrices / certificates from the
+        #    scaled integer graph k * g (inside the Lean models), divided by k here
+        run_graphs(ctx, [fractional_graph_case(ctx.rnd) for _ in range(400 if ctx.quick else 4000)], "graph-fractional")
         # -- graphs given by their construction only: arcs either way, overwritten edges, missing roles, untyped nodes; the expected
         #    answer is the Lean model of the graph reading on the add_edge calls
         run_written(ctx, [written_graph_case(ctx.rnd) for _ in range(600 if ctx.quick else 6000)], "graph-written")
